@@ -209,6 +209,32 @@ def unhex(s):
     return b"" if s == "-" else bytes.fromhex(s)
 
 
+ZMAGIC = bytes.fromhex("28b52ffd")
+ZBIG = 8 << 20
+
+
+def zstd_declared(b):
+    """largest content size / window size declared by any zstd frame header found in b (RFC 8878 3.1.1.1)"""
+    worst, i = 0, b.find(ZMAGIC)
+    while i >= 0:
+        p = i + 4
+        if p < len(b):
+            fhd = b[p]
+            p += 1
+            fcs_flag, single, did = fhd >> 6, (fhd >> 5) & 1, fhd & 3
+            if not single and p < len(b):
+                wl = 10 + (b[p] >> 3)
+                worst = max(worst, (1 << wl) + ((1 << wl) >> 3) * (b[p] & 7))
+                p += 1
+            p += (0, 1, 2, 4)[did]
+            n = (1 if single else 0, 2, 4, 8)[fcs_flag]
+            if n and p + n <= len(b):
+                v = int.from_bytes(b[p:p + n], "little")
+                worst = max(worst, v + 256 if n == 2 else v)
+        i = b.find(ZMAGIC, i + 1)
+    return worst
+
+
 def bitpack(vals, width=None, length=None):
     """Python re-implementation of the bit-packed layout, used only to *craft* malformed dictionary tails."""
     if width is None:
@@ -333,7 +359,7 @@ class C11(vlib.Spec):
         "tagHeader_tie"]]
     go_driver = "c11"
     lean_driver = "C11"
-    counts = {"quick": 24000, "thorough": 400000}
+    counts = {"quick": 20000, "thorough": 400000}
     trusted_base = [
         "Lean 4.33.0 kernel",
         "correspondence check: Go driver hooks/banyand/internal/verifdrv/c11 vs lean_exe drv_c11, byte-exact",
@@ -473,6 +499,11 @@ class C11(vlib.Spec):
                         out.append("dec-tag S %s %d" % (hx(bytes([10]) + c[1]), min(c[2], 9000)))
                     continue
             kind, m = mutate(rng, enc) if rng.random() < 0.85 else ("same", enc)
+            if op in ("u64b", "cblk", "bb", "dict", "tag") and kind != "same" and zstd_declared(m) > ZBIG:
+                # known finding F31 (zstd pre-allocates what a corrupted frame header declares): this stream
+                # avoids the class, corpus/C11/known_f31_zstd_header.case targets it
+                self.sub["avoided:zstd-header-declares-large-size"] += 1
+                continue
             self.sub["mut:" + kind] += 1
             c = mut_count(rng, cnt)
             h = hx(m)
@@ -536,6 +567,14 @@ class C11(vlib.Spec):
         f = line.split(" ; ")[0].split()
         op, a = f[0], f[1:]
         o = g.split()
+        if (g.startswith("CRASH") or g.startswith("ALLOC-EXCESS")) and op in ("dec-u64b", "dec-cblk", "dec-bb", "dec-bbt",
+                                                                                 "dec-dict", "dec-dictv", "dec-tag"):
+            declared = zstd_declared(unhex(a[1] if op == "dec-tag" else a[0]))
+            if declared > ZBIG:
+                return ("known", "F31", "%s: zstd.Decompress pre-allocates the %d bytes a corrupted frame header declares (%s)"
+                        % (op, declared, g[:40]))
+        if g.startswith("ALLOC-EXCESS"):
+            return ("violation", "%s: allocation not bounded by the input size: %s" % (op, g[:60]))
         if g.startswith("CRASH"):
             return ("violation", "%s: implementation crashed, hung or allocated without bound: %s" % (op, g[:200]))
         if g.startswith("PANIC-RT"):
